@@ -284,3 +284,76 @@ End Interp.
 
 Definition step (sc : scripts) (maxd fuel : nat) (st : state) (a : action) : outcome (state * list inv) :=
   exec sc maxd fuel 0 st [] [a].
+
+(* ---- the same interpreter, also recording the emitting signal's internal data whenever a slot is
+        entered (true) and left (false): what the harness reads through the access override at the same
+        two moments.  CallbackTrace.v proves that forgetting the trace gives exec / loop. ---- *)
+Definition snap := (bool * nat * nat * option sigdata)%type.
+Definition snap_of (st : state) (entry : bool) (e sg : nat) : snap :=
+  (entry, e, sg, if e_alive (st_E st e) then e_sigs (st_E st e) sg else None).
+
+Section InterpTr.
+Variable sc : scripts.
+Variable maxd : nat.
+
+Fixpoint exec_tr (fuel d : nat) (st : state) (lg : list inv) (tr : list snap) (acts : list action) {struct fuel}
+  : outcome (state * list inv * list snap) :=
+  match fuel with
+  | O => OutOfFuel lg
+  | S f =>
+    match acts with
+    | [] => Done (st, lg, tr)
+    | a :: rest =>
+      match a with
+      | AConnect e sg l s =>
+          if okE st e && okL st l && (sg <? st_nsg st) then
+            match connect st e sg l s with Some st' => exec_tr f d st' lg tr rest | None => Fail lg end
+          else exec_tr f d st lg tr rest
+      | ADisconnect e sg l s =>
+          if okE st e && okL st l && (sg <? st_nsg st) then
+            match disconnect st e sg l s with Some st' => exec_tr f d st' lg tr rest | None => Fail lg end
+          else exec_tr f d st lg tr rest
+      | ADestroyL l =>
+          if okL st l then
+            match destroy_listener st l with Some st' => exec_tr f d st' lg tr rest | None => Fail lg end
+          else exec_tr f d st lg tr rest
+      | ADestroyE e =>
+          if okE st e then
+            match destroy_emitter st e with Some st' => exec_tr f d st' lg tr rest | None => Fail lg end
+          else exec_tr f d st lg tr rest
+      | AEmit e sg =>
+          if okE st e && (sg <? st_nsg st) && (d <? maxd) then
+            match emit_begin st e sg with
+            | None => Fail lg
+            | Some st1 =>
+              match loop_tr f d st1 lg tr e sg with
+              | Done (st2, lg2, tr2) =>
+                  match emit_end st2 e sg with Some st3 => exec_tr f d st3 lg2 tr2 rest | None => Fail lg2 end
+              | o => o
+              end
+            end
+          else exec_tr f d st lg tr rest
+      end
+    end
+  end
+with loop_tr (fuel d : nat) (st : state) (lg : list inv) (tr : list snap) (e sg : nat) {struct fuel}
+  : outcome (state * list inv * list snap) :=
+  match fuel with
+  | O => OutOfFuel lg
+  | S f =>
+    match emit_next st e sg with
+    | None => Fail lg
+    | Some (st1, None) => Done (st1, lg, tr)
+    | Some (st1, Some x) =>
+      match exec_tr f (S d) st1 (mkInv e sg (s_recv x) (s_slot x) :: lg) (snap_of st1 true e sg :: tr) (sc (s_recv x) (s_slot x)) with
+      | Done (st2, lg2, tr2) =>
+          let tr3 := snap_of st2 false e sg :: tr2 in
+          if invalidated st2 e sg then Done (st2, lg2, tr3) else loop_tr f d st2 lg2 tr3 e sg
+      | o => o
+      end
+    end
+  end.
+End InterpTr.
+
+Definition step_tr (sc : scripts) (maxd fuel : nat) (st : state) (a : action) : outcome (state * list inv * list snap) :=
+  exec_tr sc maxd fuel 0 st [] [] [a].
